@@ -211,6 +211,10 @@ func checkPaired(t vlib.Fataler, test string, c caseParams) []string {
 		vlib.Class(test, "p2=asserted")
 	}
 
+	// P7: per-recipient freshness of private messages
+	checkRecipientFreshness(t, test, sc, A.log, c)
+	checkRecipientFreshness(t, test, sc, B.log, c)
+
 	// P3
 	recordRun(t, sc, A, seedsA, randA, c)
 	recordRun(t, sc, B, seedsB, randB, c)
